@@ -1077,6 +1077,13 @@ class ExtMixin(object):
             return v.cls
         self.err(node, "type(%r)" % (v,))
 
+    def x_json_dumps(self, args, kwargs, node, env):
+        """json.dumps(obj, ...): a string that is a function of the object and the formatting options (its text is not modelled)"""
+        if len(args) != 1:
+            self.err(node, "json.dumps arguments")
+        kw = tuple(sorted((k, v.key()) for k, v in kwargs.items()))
+        return StrV(SFmt("s", Opaque(("json.dumps", args[0].key(), kw))))
+
     # -- contextlib
     def x_contextlib_closing(self, args, kwargs, node, env):
         if kwargs or len(args) != 1:
